@@ -222,12 +222,13 @@ pub fn run(scn: &Scn, ctx: &Ctx, scratch: &Path) {
             return;
         }
     };
+    // what was observed before the session could not go on is reported first
+    for (rule, class, msg) in rep.violations {
+        violate(ctx, &rule, &class, msg);
+    }
     if let Some(e) = rep.error {
         ctx.borrow_mut().note(&format!("HARNESS-ERROR:{}", e));
         return;
-    }
-    for (rule, class, msg) in rep.violations {
-        violate(ctx, &rule, &class, msg);
     }
     let mut c = ctx.borrow_mut();
     c.nontrivial = rep.sessions > 0;
@@ -359,6 +360,19 @@ fn run_in_jail(scn: &Scn, dest: &Path, rep: &mut ChildReport) {
                     ),
                 ));
                 // undo, so that the next string starts from the same tree
+                for (k, v) in &before {
+                    // an entry that changed its KIND (the destination directory replaced by a file, a canary by a folder)
+                    match (v, after.get(k)) {
+                        (None, Some(Some(_))) => {
+                            std::fs::remove_file(k).ok();
+                            std::fs::create_dir_all(k).ok();
+                        }
+                        (Some(_), Some(None)) => {
+                            std::fs::remove_dir_all(k).ok();
+                        }
+                        _ => {}
+                    }
+                }
                 for (k, v) in &after {
                     if !before.contains_key(k) {
                         if v.is_some() {
